@@ -150,6 +150,7 @@ def run(chk, repo):
     chk.require(not bad, "C09-X3", op.where(oi), "no file-system write is reachable from open_image outside create_cache",
                 f"the read/fallback path writes: {bad[:3]}", key="open_image:fallback-writes")
     chk.attempt(lookup_model, chk, repo)
+    chk.attempt(other_places, chk, repo)
     chk.attempt(decode_prefixes, chk, repo)
     chk.count("functions", len(reach))
 
@@ -221,6 +222,68 @@ def lookup_model(chk, repo):
             chk.require(ok, "C09-X6", where, f"{sit}: {want}",
                         f"{sit}: read_cache gives {outcome}, expected: {want}" + (" - the index a repairing create_cache has just written is never used, every later open parses the image again" if local == "complete" else ""),
                         key=f"read_cache:{local}:{remote}")
+
+
+def other_places(chk, repo):
+    """C09-X6 (continued): whatever further key of the product's mapper read_cache asks for - an index under another name, a compressed
+    one - may hold what an interrupted writer left: a prefix of the document, or a compressed stream that ends early (the standard
+    library folds the decompression of the model bytes and raises what it raises).  With no complete index anywhere the outcome is
+    still CachingError"""
+    import bz2
+    import gzip
+    import lzma
+    from collections import OrderedDict
+    from ..shapes import Const, Fn, Interp, NonTermination, Obj, ShapeError, _Raise
+    cach = repo.module("ceos_alos2.sar_image.caching")
+    where = f"{cach.relpath}:read_cache"
+    doc = b'{"__type__": "group", "url": "memory://product", "data": {"time": {"__type__": "variable", "dims": ["rows"], "data": [1, 2, 3], "attrs": {}}}, "path": "HH", "attrs": {}}' * 4
+    I = Interp(repo)
+    sc = I.module_scope(cach)
+    asked = []
+
+    def decode(I_, a, kw):
+        t = a[0] if a else kw.get("cache")
+        if isinstance(t, Obj) and t.cls == "Text":
+            raise _Raise("raise CachingError('invalid or incomplete cache file')", CACHING_ERROR_CLASSES)
+        if isinstance(t, Const) and isinstance(t.v, (str, bytes)):
+            raise _Raise("raise CachingError('invalid or incomplete cache file')", CACHING_ERROR_CLASSES)  # a cut document (C09-X7 decides decode itself)
+        raise ShapeError(f"decode is given {t!r:.40}")
+    sc.vars["decode"] = Fn("py", impl=decode, name="decode")
+    lp = Obj("Path", OrderedDict(is_file=Fn("py", impl=lambda I_, a, k: Const(False), name="is_file"), exists=Fn("py", impl=lambda I_, a, k: Const(False), name="exists")))
+    lp.fields["read_text"] = Fn("py", impl=lambda I_, a, k: (_ for _ in ()).throw(_Raise("FileNotFoundError: no such file", ["FileNotFoundError", "OSError", "Exception", "BaseException", "object"])), name="read_text")
+    lp.fields["read_bytes"] = lp.fields["read_text"]
+    sc.vars["local_cache_location"] = Fn("py", impl=lambda I_, a, k: lp, name="local_cache_location")
+
+    def torn_of(key):
+        if key.endswith((".gz", ".gzip")):
+            return Const(gzip.compress(doc)[:-11])
+        if key.endswith(".bz2"):
+            return Const(bz2.compress(doc)[:-11])
+        if key.endswith((".xz", ".lzma")):
+            return Const(lzma.compress(doc)[:-11])
+        return Const(doc[:-11])
+
+    def has(k):
+        return isinstance(k, Const) and isinstance(k.v, str) and k.v.startswith("IMG-X") and k.v not in ("IMG-X", "IMG-X.index")
+
+    def m_getitem(I_, a, kw):
+        if not has(a[0]):
+            raise _Raise(f"KeyError {a[0]!r:.30}", ["KeyError", "LookupError", "Exception", "BaseException", "object"])
+        asked.append(a[0].v)
+        return torn_of(a[0].v)
+    mapper = Obj("Mapper", OrderedDict(root=Const("memory://product"), __getitem__=Fn("py", impl=m_getitem, name="__getitem__"),
+                                       __contains__=Fn("py", impl=lambda I_, a, k: Const(has(a[0])), name="__contains__")))
+    mapper.fields["get"] = Fn("py", impl=lambda I_, a, k: (m_getitem(I_, a, k) if has(a[0]) else (a[1] if len(a) > 1 else Const(None))), name="get")
+    try:
+        out = I.call(I.lookup("read_cache", sc), [mapper, Const("IMG-X"), Const(7)], {})
+        outcome = f"returns {out!r:.40}"
+    except _Raise as e:
+        outcome = "CachingError" if e.classes and "CachingError" in e.classes else f"raises {(e.classes or ['?'])[0]} ({e.what[:60]})"
+    except (ShapeError, NonTermination, RecursionError) as e:
+        raise AnalysisError(f"{where}: cannot be evaluated with interrupted writes under other names next to the image ({', '.join(asked) or 'none asked for'}): {str(e)[:120]}")
+    chk.require(outcome == "CachingError", "C09-X6", where, "no complete index anywhere, interrupted writes under every other name read_cache asks for" + (f" ({', '.join(sorted(set(asked)))})" if asked else " (none)") + ": CachingError",
+                f"no complete index anywhere, but what an interrupted writer left under {sorted(set(asked))}: read_cache {outcome} instead of raising CachingError - open_image does not fall back to the parse and every default open of the product fails",
+                key="read_cache:other-places")
 
 
 def decode_prefixes(chk, repo):
